@@ -118,8 +118,13 @@ def G(text, codes=None):
     """Compact notation: rules separated by ';' or newline, alternatives by
     '|'.  Lower-case identifiers and quoted chars are terminals; 'error' is
     the error terminal.  Translation: '# n', '# -', '# name [cost] (n - ...)'."""
+    import re
     terms = []
     rules = []
+    text = re.sub(r"'(.)'", lambda m: " \x01%d " % ord(m.group(1)), text)
+
+    def unq(s):
+        return "'%s'" % chr(int(s[1:])) if s.startswith("\x01") else s
 
     def term(name):
         if name == "error":
@@ -141,7 +146,7 @@ def G(text, codes=None):
                 seq, tr = alt.split("#", 1)
             else:
                 seq, tr = alt, None
-            rhs = seq.split()
+            rhs = [unq(x) for x in seq.split()]
             for s in rhs:
                 if s[0].islower() or s[0] == "'":
                     term(s)
